@@ -326,6 +326,41 @@ def c19_7(ck, prog, rid='C19.7'):
         raise AnalysisBroken('uses of the remembered connection of held requests not found (%d)' % n)
 
 
+def c19_8(ck, prog):
+    r = ck.rule('C19.8', 'the activation helper\'s configuration parser interprets element text by the element that is '
+                'open: every successful start of an element records that element\'s own type (from its name) before '
+                'any text can arrive', 'TS',
+                breaks='the text of an element the helper ignores (includedir, pidfile, listen ...) is read as the '
+                'content of the last element it does read: a path outside every configured service directory becomes a '
+                'service directory of the setuid helper', floor=1)
+    T = 'bus/config-parser-trivial.c'
+    fn = prog.fn('bus_config_parser_start_element', T)
+    conv = {c['id'] for b, i, c in fn.calls('bus_config_parser_element_name_to_type')
+            if c['args'] and is_ref(c['args'][0]) and c['args'][0].get('kind') == 'param'}
+    if not conv:
+        raise AnalysisBroken('start_element: element name is no longer converted to a type')
+
+    def on_event(user, ev, ctx):
+        for lhs, how, rhs in written_lvalues(ev):
+            if is_member(lhs, 'type', 'BusConfigParser') and how == '=':
+                o = ctx.origin_call(rhs) if rhs is not None else None
+                return bool(o is not None and o[0] in conv and o[1] == 'result')
+        return user
+
+    def on_exit(user, ctx, ret, ev):
+        if ctx.ret_status(ret) != 'fail' and not user:
+            ctx.report('an element can start without the parser recording its type: its text would be read as the '
+                       'content of an earlier element', ev['line'] if ev else fn.line, key='stale-type')
+    locs = {lhs['name'] for b, i, ev in fn.events() for lhs, how, rhs in written_lvalues(ev)
+            if is_ref(lhs) and rhs is not None and rhs.get('k') == 'call' and rhs.get('id') in conv}
+    ex = Explorer(fn, init=False, on_event=on_event, on_exit=on_exit, track=locs or None,
+                  calls={'bus_config_parser_element_name_to_type'}, cap=300000).run()
+    if ex.reports:
+        r.from_reports(ex.reports, keyfn=lambda k, rep: 'start_element:%s' % k)
+    else:
+        r.ok('start_element:type-recorded-on-every-path')
+
+
 def run(ck):
     ck.explanation = (
         'Static rules over bus/activation-helper.c and bus/activation.c: (DOM/WHO) execv is reachable only through '
@@ -342,6 +377,7 @@ def run(ck):
         c19_2(ck, prog)
         c19_3(ck, prog)
         c19_7(ck, prog)
+        c19_8(ck, prog)
         r = ck.rule('C19.6', 'pending activations (and the messages they hold) survive everything but the end of the '
                     'bus: the table of pending activations and the activation object are created once and released '
                     'only by their destructors, never by a configuration reload', 'WHO',
